@@ -92,10 +92,11 @@ def desugar_try(mirj):
 
 def apply(facts):
     """desugar every body of a fact base in place; returns statistics"""
-    stats = {"try": 0, "checked_split": 0}
+    stats = {"try": 0, "checked_split": 0, "dup_join": 0}
     for r in list(facts["fns"]) + list(facts.get("built", [])):
         stats["checked_split"] += checked_splits(r.get("mir"))
         stats["try"] += desugar_try(r.get("mir"))
+        stats["dup_join"] += dup_return_joins(r.get("mir"))
     return stats
 
 
@@ -454,3 +455,59 @@ def thread_all(prog):
             prog.fns[short] = mir.Fn(rec, prog)
             total += k
     return total
+
+
+# --------------------------------------------------------------------------------------------------
+# tail duplication of a small join block that builds the return value from a value chosen in the branches
+# --------------------------------------------------------------------------------------------------
+
+def _locals_read(node, acc):
+    if isinstance(node, dict):
+        if node.get("k") in ("copy", "move") and "place" in node:
+            acc.add(node["place"]["local"])
+        for v in node.values():
+            _locals_read(v, acc)
+    elif isinstance(node, list):
+        for v in node:
+            _locals_read(v, acc)
+
+
+def dup_return_joins(mirj):
+    """`Ok(if c { a } else { b })` and `if c { Ok(a) } else { Ok(b) }` are the same function; the first joins the two
+    branches in a block that wraps the chosen value into the return place. Such a join block (a few statements, one of
+    them assigning `_0` from a local that the predecessors assign, all predecessors arriving by `goto`) is copied into
+    its predecessors, so that every branch states what it returns. In place; returns the number of joins removed."""
+    if not mirj:
+        return 0
+    blocks = mirj["blocks"]
+    n = 0
+    for j, J in enumerate(blocks):
+        if J.get("cleanup") or J["term"]["k"] not in ("goto", "return", "drop"):
+            continue
+        real = [s for s in J["stmts"] if s["k"] not in ("storagelive", "storagedead")]
+        if not (1 <= len(real) <= 3) or any(s["k"] != "assign" for s in real):
+            continue
+        ret_assign = [s for s in real if s["place"]["local"] == 0]
+        if not ret_assign:
+            continue
+        reads = set()
+        for s in real:
+            _locals_read(s["rv"], reads)
+        preds = [p for p, P in enumerate(blocks) if p != j and P["term"]["k"] == "goto" and P["term"]["target"] == j]
+        others = [p for p, P in enumerate(blocks) if p != j and p not in preds and any(
+            x == j for x in ([P["term"].get("target"), P["term"].get("otherwise"), P["term"].get("unwind")] + [bb for _, bb in P["term"].get("targets", [])]))]
+        if len(preds) < 2 or others or (J["term"]["k"] == "goto" and J["term"]["target"] == j):
+            continue
+        assigned_in_preds = set()
+        for p in preds:
+            for s in blocks[p]["stmts"]:
+                if s["k"] == "assign" and not s["place"]["proj"]:
+                    assigned_in_preds.add(s["place"]["local"])
+        if not (reads & assigned_in_preds):
+            continue
+        for p in preds:
+            blocks[p]["stmts"].extend(copy.deepcopy(J["stmts"]))
+            blocks[p]["term"] = copy.deepcopy(J["term"])
+            blocks[p]["term"]["desugared"] = "dup-join"
+        n += 1
+    return n
